@@ -763,3 +763,136 @@ func globalsCases() []*Case {
 	cases[len(cases)-1].Abandon = 1
 	return cases
 }
+
+// ---------------------------------------------------------------------------
+// hand-built JPEG structures: frame type (SOF0 baseline, SOF1 extended
+// sequential, SOF2 progressive) x 1/3/4 components x sampling factors x number
+// of scans x restart interval, with the smallest possible Huffman tables (one
+// code of one bit each: DC difference 0, end of block), so every 8x8 block
+// costs two zero bits.  Outcome, panic/crash and the bounded-output clause
+// (at most width x height x components bytes) are judged; the cases run in
+// the worker subprocess because the DCT decoder works on a goroutine of its
+// own, whose panic the caller cannot recover.
+
+func jpegStructure(sof byte, dim int, hv []byte, scans, dri int) []byte {
+	var b bytes.Buffer
+	w := func(p ...byte) { b.Write(p) }
+	n := len(hv)
+	w(0xFF, 0xD8)
+	w(0xFF, 0xDB, 0x00, 0x43, 0x00)
+	for i := 0; i < 64; i++ {
+		w(0x01)
+	}
+	w(0xFF, sof, 0x00, byte(8+3*n), 0x08, byte(dim>>8), byte(dim), byte(dim>>8), byte(dim), byte(n))
+	for i := 0; i < n; i++ {
+		w(byte(i+1), hv[i], 0x00)
+	}
+	counts := [16]byte{1}
+	w(0xFF, 0xC4, 0x00, 0x14, 0x00)
+	w(counts[:]...)
+	w(0x00)
+	w(0xFF, 0xC4, 0x00, 0x14, 0x10)
+	w(counts[:]...)
+	w(0x00)
+	if dri > 0 {
+		w(0xFF, 0xDD, 0x00, 0x04, byte(dri>>8), byte(dri))
+	}
+	hmax, vmax, blocks := 1, 1, 0
+	for _, x := range hv {
+		h, v := int(x>>4), int(x&15)
+		if h > hmax {
+			hmax = h
+		}
+		if v > vmax {
+			vmax = v
+		}
+		blocks += h * v
+	}
+	if n == 1 {
+		hmax, vmax, blocks = 1, 1, 1 // a single component scan is not interleaved
+	}
+	mcus := ((dim + 8*hmax - 1) / (8 * hmax)) * ((dim + 8*vmax - 1) / (8 * vmax))
+	for s := 0; s < scans; s++ {
+		w(0xFF, 0xDA, 0x00, byte(6+2*n), byte(n))
+		for i := 0; i < n; i++ {
+			w(byte(i+1), 0x00)
+		}
+		if sof == 0xC2 {
+			w(0x00, 0x00, 0x00) // progressive: a DC scan
+		} else {
+			w(0x00, 0x3F, 0x00)
+		}
+		if dri <= 0 {
+			b.Write(make([]byte, (2*blocks*mcus+7)/8+1))
+		} else {
+			rst := 0
+			for left := mcus; left > 0; left -= dri {
+				m := dri
+				if left < m {
+					m = left
+				}
+				b.Write(make([]byte, (2*blocks*m+7)/8))
+				if left > dri {
+					w(0xFF, byte(0xD0+rst%8))
+					rst++
+				}
+			}
+			b.Write([]byte{0})
+		}
+	}
+	w(0xFF, 0xD9)
+	return b.Bytes()
+}
+
+func jpegCases(ctx *core.Ctx) []*Case {
+	var cases []*Case
+	add := func(sof byte, dim int, hv []byte, scans, dri int) {
+		sc := "1"
+		if scans > 1 {
+			sc = "many"
+		}
+		cases = append(cases, &Case{
+			Class:  fmt.Sprintf("jpeg-structure/sof%d/comps=%d/scans=%s", sof-0xC0, len(hv), sc),
+			Filter: nm("DCTDecode"), Parms: none, Sub: true, Cap: dim * dim * len(hv),
+			body: jpegStructure(sof, dim, hv, scans, dri),
+			Note: fmt.Sprintf("SOF%d %dx%d sampling %x, %d scans, restart interval %d", sof-0xC0, dim, dim, hv, scans, dri)})
+	}
+	factors := []byte{0x11, 0x21, 0x12, 0x22}
+	var vectors [][]byte
+	var rec func(prefix []byte, n int)
+	rec = func(prefix []byte, n int) {
+		if len(prefix) == n {
+			vectors = append(vectors, append([]byte(nil), prefix...))
+			return
+		}
+		for _, f := range factors {
+			rec(append(prefix, f), n)
+		}
+	}
+	for _, n := range []int{1, 3, 4} {
+		rec(nil, n)
+	}
+	// every sampling vector (also the asymmetric four-component ones) with one scan
+	for _, sof := range []byte{0xC0, 0xC1, 0xC2} {
+		for _, hv := range vectors {
+			add(sof, 16, hv, 1, 0)
+			if ctx.Thorough() {
+				add(sof, 40, hv, 1, 0)
+				add(sof, 16, hv, 2, 3)
+			}
+		}
+	}
+	// several full scans and restart intervals on the common samplings
+	common := [][]byte{{0x11}, {0x22}, {0x11, 0x11, 0x11}, {0x22, 0x11, 0x11}, {0x21, 0x11, 0x11},
+		{0x11, 0x11, 0x11, 0x11}, {0x22, 0x11, 0x11, 0x22}, {0x22, 0x11, 0x11, 0x11}, {0x22, 0x22, 0x22, 0x22}}
+	for _, sof := range []byte{0xC0, 0xC1, 0xC2} {
+		for _, hv := range common {
+			for _, scans := range []int{1, 2, 3, 40} {
+				for _, dri := range []int{0, 1, 4} {
+					add(sof, 64, hv, scans, dri)
+				}
+			}
+		}
+	}
+	return cases
+}
